@@ -42,8 +42,8 @@ EPOCH = datetime.datetime(1970, 1, 1)
 
 NAME_POOL = ['a', 'B', 'b1', 'b10', 'b2', '_x', 'é', 'Z', 'aa', 'A', 'z9', 'col 1', 'k', 'Kq', 'm_2', 'ß', '0n', 'x.y']
 NUM_POOL = [0.0, 0.5, -2.25, 3.0, 100.0, 1e10, 16777216.0, -0.125, 7.0, 1.0, 2.0, -1.0, 65504.0]
-CAT_STR = ['a', 'b', 'c', 'd', 'é', '', ' x', 'A', 'NA', '日本', 'b ']
-TOKENS = ['x', 'y', 'z', 'w', 'é', 'a b', 'Q', 'x1', 'yy']
+CAT_STR = ['a', 'b', 'c', 'd', 'é', '', ' x', 'A', 'NA', '日本', 'b ', '-1', 'nan', 'None', '0']
+TOKENS = ['x', 'y', 'z', 'w', 'é', 'a b', 'Q', 'x1', 'yy', '-1', 'nan', 'None', '0']
 SEPS = ['|', ',', ';', '::', '/']
 TEXTS = ['hello', 'wörld', '', 'a b c', 'Hello', 'olleh', '12', 'the quick brown fox', ' pad ', 'None']
 BAD_TIMES = ['garbage', '2020-13-45 00:00:00', 'n/a', '31/31/2000', 'yesterday']
